@@ -45,12 +45,19 @@ func instances(tier string, seed uint64) []inst {
 		{"?int", tOpt(tInt()), []rv{vNone(), vSome(vInt(1))}},
 		{"?str", tOpt(tStr()), []rv{vNone(), vSome(vStr("s")), vSome(vStr(""))}},
 		{"?[int]", tOpt(tList(tInt())), []rv{vNone(), vSome(vList()), vSome(vList(vInt(1), vInt(2)))}},
+		// empty options (and null) sitting in the element / field cells of a compound value
+		{"[?int]", tList(tOpt(tInt())), []rv{vList(), vList(vNone()), vList(vNone(), vSome(vInt(1)), vNone())}},
+		{"[{a:?int}]", tList(tObj("a", tOpt(tInt()))), []rv{vList(), vList(vObj("a", vNone())), vList(vObj("a", vSome(vInt(1))), vObj("a", vNone()))}},
+		{"{a:?int,b:str}", tObj("a", tOpt(tInt()), "b", tStr()), []rv{vObj("a", vSome(vInt(2)), "b", vStr("")), vObj("a", vNone(), "b", vStr("x"))}},
+		{"{o:?str,l:[?int]}", tObj("o", tOpt(tStr()), "l", tList(tOpt(tInt()))), []rv{vObj("o", vSome(vStr("s")), "l", vList()), vObj("o", vNone(), "l", vList(vSome(vInt(1)), vNone()))}},
 		{"null", tNull(), []rv{vNull()}},
 		{"fn", tFn(tInt()), []rv{vFn()}},
 	}
 	out = append(out, collisionInstances()...)
 	for i := range out {
 		if out[i].Name == "{?}" {
+			// an any-object that holds empty options, a null and a list with an empty option
+			out[i].Vars = append(out[i].Vars, vAnyObj("n", vNone(), "s", vSome(vInt(4)), "l", vList(vSome(vInt(1)), vNone())), vAnyObj("z", vNull(), "n", vNone()))
 			// an any-object whose data keys are named like its own builtin members
 			out[i].Vars = append(out[i].Vars, collisionAnyObj())
 		}
@@ -487,14 +494,19 @@ func argTuples(params []ast.FunctionTypeParam, recv rv, thorough bool) [][]rv {
 		}
 		tuples = next
 	}
-	if mt := maxTuples(thorough); len(tuples) > mt {
-		var out [][]rv
-		for k := 0; k < mt; k++ {
-			out = append(out, tuples[k*(len(tuples)-1)/(mt-1)])
-		}
-		tuples = out
+	return strideTuples(tuples, maxTuples(thorough))
+}
+
+// strideTuples keeps at most max tuples by a deterministic stride that keeps the first and the last.
+func strideTuples(tuples [][]rv, max int) [][]rv {
+	if len(tuples) <= max {
+		return tuples
 	}
-	return tuples
+	var out [][]rv
+	for k := 0; k < max; k++ {
+		out = append(out, tuples[k*(len(tuples)-1)/(max-1)])
+	}
+	return out
 }
 
 // ---------------------------------------------------------------------------------------------
@@ -514,29 +526,40 @@ type payload struct {
 	Form    string `json:"form,omitempty"`   // let | stmt | bound | chain
 	Origin  string `json:"origin,omitempty"` // how the receiver is constructed: "" literal | json | cast
 	Print   bool   `json:"print,omitempty"`
-	Src     string `json:"src,omitempty"`
+	// Twin: the program binds a second, untouched value `twin` built like the receiver and probes it last
+	Twin bool   `json:"twin,omitempty"`
+	Src  string `json:"src,omitempty"`
 	// Recvs: all representative receivers (part api)
 	Recvs []rv `json:"recvs,omitempty"`
 }
 
 // jsonable reports whether a value can be written as JSON text that parse_json maps back onto it
-// (no floats: `[1.0]` comes back as ints; no options, ranges, functions).
-func jsonable(v rv) bool {
+// (no floats: `[1.0]` comes back as ints; no ranges, functions). An empty option is the JSON null;
+// Some(x) is written as x and comes back as Some(x) only where the cast target says `?T`, i.e. not
+// below an any-object.
+func jsonable(v rv) bool { return jsonableIn(v, v.K != "anyobj") }
+
+func jsonableIn(v rv, typed bool) bool {
 	switch v.K {
 	case "int", "bool":
 		return true
 	case "str":
 		return !strings.ContainsAny(v.S, "\"\\'\n") && isASCII(v.S)
+	case "opt":
+		if v.O == nil {
+			return true
+		}
+		return typed && v.O.K != "opt" && jsonableIn(*v.O, typed)
 	case "list":
 		for _, x := range v.L {
-			if !jsonable(x) {
+			if !jsonableIn(x, typed) {
 				return false
 			}
 		}
 		return true
 	case "obj", "anyobj":
 		for _, x := range v.M {
-			if !jsonable(x) {
+			if !jsonableIn(x, typed && v.K == "obj") {
 				return false
 			}
 		}
@@ -553,6 +576,11 @@ func jsonText(v rv) string {
 		return fmt.Sprint(v.B)
 	case "str":
 		return "\"" + v.S + "\""
+	case "opt":
+		if v.O == nil {
+			return "null"
+		}
+		return jsonText(*v.O)
 	case "list":
 		parts := make([]string, len(v.L))
 		for i, x := range v.L {
@@ -597,32 +625,89 @@ func originsOf(recv rv) []string {
 			out = append(out, "cast")
 		}
 	}
+	if recv.K == "anyobj" && len(out) > 1 {
+		for _, x := range recv.M {
+			if x.K == "null" {
+				// a null cannot be handed to set(): only a cast / parse_json delivers such a value
+				out = out[1:]
+				break
+			}
+		}
+	}
 	return out
 }
 
-// recvSetup renders the statements that bind `recv`, followed by the marker probe(true) that tells
-// the oracle that the receiver was constructed.
-func recvSetup(c *litCtx, in inst, recv rv, origin string) []string {
+// extraOriginsOf lists further producers of the same value: "loop" = the value arrives as the
+// variable of a `for` loop over a one-element list (the runtimes hand out a copy of the element),
+// "as" = the value went through a cast to its own type (the runtimes rebuild it element by element).
+// Together with parse_json these are the places where the cells of a compound value are created by
+// the value libraries and not by the literal.
+func extraOriginsOf(in inst, recv rv) []string {
+	if typeText(in.T) == "" || !literalOK(recv) {
+		return nil
+	}
+	for _, o := range originsOf(recv) {
+		if o == "" {
+			switch recv.K {
+			case "list", "obj", "opt":
+				return []string{"loop", "as"}
+			case "anyobj", "range":
+				return []string{"loop"}
+			}
+		}
+	}
+	return nil
+}
+
+// bindValue renders the statements that bind `name` to the value through the given origin; opened
+// is the number of blocks left open (the rest of the program runs inside the loop).
+func bindValue(c *litCtx, name string, in inst, recv rv, origin string) (out []string, opened int) {
 	tt := typeText(in.T)
+	tmp := func(i int) string {
+		if name == "recv" {
+			return fmt.Sprintf("s%d", i)
+		}
+		return fmt.Sprintf("%s_s%d", name, i)
+	}
+	literal := func(name string) []string {
+		if recv.K == "anyobj" {
+			out := []string{"let " + name + ": { ? } = new { ? };"}
+			for i, k := range sortedKeys(recv.M) {
+				v := recv.M[k]
+				out = append(out, fmt.Sprintf("let %s: %s = %s;", tmp(i), typeText(typeOfRv(v)), c.lit(v, typeOfRv(v), true)))
+				out = append(out, fmt.Sprintf("%s.set(%s, %s);", name, strLit(k), tmp(i)))
+			}
+			return out
+		}
+		return []string{fmt.Sprintf("let %s: %s = %s;", name, tt, c.lit(recv, in.T, true))}
+	}
 	switch origin {
 	case "json":
-		return []string{fmt.Sprintf("let recv: %s = %s.parse_json() as %s;", tt, strLit(jsonText(recv)), tt), "probe(true);"}
+		return []string{fmt.Sprintf("let %s: %s = %s.parse_json() as %s;", name, tt, strLit(jsonText(recv)), tt)}, 0
 	case "cast":
 		o := recv.clone()
 		o.K = "obj"
-		return []string{fmt.Sprintf("let recv: { ? } = %s as { ? };", c.lit(o, typeOfRv(o), true)), "probe(true);"}
+		// the literal is not bound with an annotation: empty lists and `none` are hoisted
+		return []string{fmt.Sprintf("let %s: { ? } = %s as { ? };", name, c.lit(o, typeOfRv(o), false))}, 0
+	case "as":
+		return append(literal(name+"_0"), fmt.Sprintf("let %s: %s = %s_0 as %s;", name, tt, name, tt)), 0
+	case "loop":
+		out := literal(name + "_0")
+		out = append(out, fmt.Sprintf("let %s_src: [%s] = [%s_0];", name, tt, name), fmt.Sprintf("for %s in %s_src {", name, name))
+		return out, 1
 	}
-	if recv.K == "anyobj" {
-		out := []string{"let recv: { ? } = new { ? };"}
-		for i, k := range sortedKeys(recv.M) {
-			v := recv.M[k]
-			name := fmt.Sprintf("s%d", i)
-			out = append(out, fmt.Sprintf("let %s: %s = %s;", name, typeText(typeOfRv(v)), c.lit(v, typeOfRv(v), true)))
-			out = append(out, fmt.Sprintf("recv.set(%s, %s);", strLit(k), name))
-		}
-		return append(out, "probe(true);")
-	}
-	return []string{fmt.Sprintf("let recv: %s = %s;", tt, c.lit(recv, in.T, true)), "probe(true);"}
+	return literal(name), 0
+}
+
+// recvSetup renders the statements that bind `recv` and `twin` (a second value constructed in the
+// same way, which no statement of the program touches), followed by the marker probe(true) that
+// tells the oracle that both were constructed.
+func recvSetup(c *litCtx, in inst, recv rv, origin string) []string {
+	out, n1 := bindValue(c, "recv", in, recv, origin)
+	tw, n2 := bindValue(c, "twin", in, recv, origin)
+	out = append(out, tw...)
+	c.open += n1 + n2
+	return append(out, "probe(true);")
 }
 
 func renderable(t ast.Type) bool {
@@ -645,6 +730,9 @@ func assemble(c *litCtx, body []string) string {
 	}
 	for _, l := range body {
 		sb.WriteString("    " + l + "\n")
+	}
+	for k := 0; k < c.open; k++ {
+		sb.WriteString("    }\n")
 	}
 	sb.WriteString("}\n")
 	return sb.String()
@@ -717,7 +805,7 @@ func callProgram(in inst, recv rv, origin string, member string, mt ast.Type, ar
 	e := modelMember(recv, member, args)
 	if !isFn {
 		cast := castFor(mt, e)
-		body = append(body, fmt.Sprintf("let r = recv.%s%s;", member, cast), "probe(r, recv);")
+		body = append(body, fmt.Sprintf("let r = recv.%s%s;", member, cast), "probe(r, recv, twin);")
 		if renderable(mt) {
 			body = append(body, "println(r);")
 			print = true
@@ -741,16 +829,16 @@ func callProgram(in inst, recv rv, origin string, member string, mt ast.Type, ar
 	call := fmt.Sprintf("recv.%s(%s)", member, strings.Join(names, ", "))
 	switch form {
 	case "stmt":
-		body = append(body, call+";", "probe(recv);")
+		body = append(body, call+";", "probe(recv, twin);")
 	case "bound":
-		body = append(body, "let r = "+call+";", "let q = [r];", "probe(q, recv);")
+		body = append(body, "let r = "+call+";", "let q = [r];", "probe(q, recv, twin);")
 	case "chain":
 		// `?any` results: no cast (a cast to ?T would wrap a bare value into Some and mask a member
 		// that forgot the option); the structure is observed through the option's own to_string
-		body = append(body, "let r = "+call+".to_string();", "probe(r, recv);", "println(r);")
+		body = append(body, "let r = "+call+".to_string();", "probe(r, recv, twin);", "println(r);")
 		print = true
 	default:
-		body = append(body, "let r = "+call+castFor(ft.ReturnType, e)+";", "probe(r, recv);")
+		body = append(body, "let r = "+call+castFor(ft.ReturnType, e)+";", "probe(r, recv, twin);")
 		if renderable(ft.ReturnType) {
 			body = append(body, "println(r);")
 			print = true
@@ -764,24 +852,24 @@ func indexProgram(in inst, recv rv, origin string, part string, idx rv, form str
 	c := &litCtx{}
 	body := recvSetup(c, in, recv, origin)
 	if part == "arrow" && form == "chain" {
-		body = append(body, "let r = (recv->"+idx.S+").to_string();", "probe(r, recv);", "println(r);")
+		body = append(body, "let r = (recv->"+idx.S+").to_string();", "probe(r, recv, twin);", "println(r);")
 		return assemble(c, body), true
 	}
 	switch part {
 	case "idx-int":
-		body = append(body, fmt.Sprintf("let i: int = %s;", c.lit(idx, tInt(), true)), "let r = recv[i];", "probe(r, recv);")
+		body = append(body, fmt.Sprintf("let i: int = %s;", c.lit(idx, tInt(), true)), "let r = recv[i];", "probe(r, recv, twin);")
 		if rt := indexResultType(in, recv, part, idx); rt != nil && renderable(rt) {
 			body = append(body, "println(r);")
 			print = true
 		}
 	case "idx-lit":
-		body = append(body, fmt.Sprintf("let r = recv[%s];", strLit(idx.S)), "probe(r, recv);")
+		body = append(body, fmt.Sprintf("let r = recv[%s];", strLit(idx.S)), "probe(r, recv, twin);")
 	case "idx-dyn":
 		e := modelIndex(recv, idx)
-		body = append(body, fmt.Sprintf("let k: str = %s;", strLit(idx.S)), "let r = recv[k]"+castFor(ast.NewAnyType(sp0), e)+";", "probe(r, recv);")
+		body = append(body, fmt.Sprintf("let k: str = %s;", strLit(idx.S)), "let r = recv[k]"+castFor(ast.NewAnyType(sp0), e)+";", "probe(r, recv, twin);")
 	case "arrow":
 		e := modelArrow(recv, idx.S)
-		body = append(body, "let r = (recv->"+idx.S+")"+castFor(tOpt(ast.NewAnyType(sp0)), e)+";", "probe(r, recv);")
+		body = append(body, "let r = (recv->"+idx.S+")"+castFor(tOpt(ast.NewAnyType(sp0)), e)+";", "probe(r, recv, twin);")
 	}
 	return assemble(c, body), print
 }
@@ -809,7 +897,7 @@ func assignProgram(in inst, recv rv, origin string, part string, member string, 
 	case "idx-set-lit":
 		place = "recv[" + strLit(idx.S) + "]"
 	}
-	body = append(body, place+" = v;", "let r = "+place+";", "probe(r, recv);")
+	body = append(body, place+" = v;", "let r = "+place+";", "probe(r, recv, twin);")
 	if renderable(vt) {
 		body = append(body, "println(r);")
 		print = true
